@@ -90,13 +90,32 @@ def analyse_class(model, cls, input_dims_spec=None, output_spec=None, units=BASE
 
 
 def findings_from(S, ev, prop, rule, result, scope_files=None):
-    for inc in (S.blame() if S.inconsistencies else []):
+    if not S.inconsistencies:
+        return
+    nocarrier, drop = S.no_carrier()
+    hints = {}
+    if drop:
+        # probable cause: where anchored propagation first meets the dropped unit
+        for inc in S.blame():
+            for ui in drop:
+                if inc.residual.c[ui] != S.zero and ui not in hints and inc.node is not None:
+                    hints[ui] = '%s:%d `%s`' % (inc.node.where[0], inc.node.where[2], inc.node.src[:80].replace('\n', ' '))
+    for what, n, unit, have, want in nocarrier:
+        file, qual, line = n.where if n is not None else ('?', '?', 0)
+        detail = '%s; no input can carry unit %s' % (what, unit)
+        msg = ('%s: the field needs %s^%s but every expression it is built from has %s^%s whatever '
+               'dimensions the parameters are given: no input carries this unit, so the field cannot follow '
+               'a change of it' % (what, unit, want.as_expr(), unit, have.as_expr()))
+        if S.units.index(unit) in hints:
+            msg += '; anchored propagation first meets the conflict at ' + hints[S.units.index(unit)]
+        result.add(Finding(prop, rule.split('.')[0] + '.no-scale-carrier', file, qual, detail, msg, line=line,
+                           construct=n.src if n is not None else ''))
+    for inc in S.blame(drop):
         n = inc.node
         if n is None:
             continue
         file, qual, line = n.where
         res = residual_text(S, inc)
-        S_show = S.show
         leaves = leaves_of(n)
         detail = '%s; residual %s; over %s' % (inc.what, res, ','.join(leaves))
         msg = ('dimension mismatch in %s: %s vs %s (quantities involved: %s)'
